@@ -1520,3 +1520,143 @@ def d5_17(ctx):
         if len(seen) != len(chunks):
             diffs.append(f"{len(seen)} request(s) sent (expected {len(chunks)})")
         ctx.check(not diffs, key, fn, f"{label}: {len(chunks)} request(s), offsets advance by the bytes received", f"template read ({label}): {diffs[:2]}", witness=label)
+
+
+# ---------------------------------------------------------------------------------------------------------------- path segments
+def _segment_rule(ctx):
+    """Logical and port segments and the EPATH assembler folded on witnesses, against the bytes CIP Vol.1 appendix C prescribes:
+    a logical segment is 0x20 | type | format (8 / 16 / 32-bit chosen by the value, a pad byte after the segment byte in the
+    padded form when the value is wider than one byte) followed by the little-endian value, values above 32 bits and unknown
+    types are refused; a port segment is the port number (1..14) with the extended-link bit and a length byte when the link
+    is longer than one byte, numeric links range-checked as one byte, text links validated as IP addresses, the whole padded
+    to even length; an EPATH concatenates its segments in order (bytes pass through), asks each for the padded / packed form
+    of its class, and prefixes the word count (plus a reserved byte when asked)."""
+    import ipaddress as _ip
+
+    DTm = "pycomm3.cip.data_types"
+    ls = ctx.model.cls(f"{DTm}:LogicalSegment")
+    fn = ls.methods["_encode"]
+    pnames = [a.arg for a in fn.args.args]
+    lcases = [
+        ((5, "class_id"), False, b"\x20\x05"), ((0x6B, "class_id"), True, b"\x20\x6b"), ((5, "instance_id"), True, b"\x24\x05"), ((0, "instance_id"), True, b"\x24\x00"), ((255, "instance_id"), True, b"\x24\xff"),
+        ((256, "instance_id"), True, b"\x25\x00\x00\x01"), ((256, "instance_id"), False, b"\x25\x00\x01"), ((300, "class_id"), True, b"\x21\x00\x2c\x01"), ((65535, "instance_id"), True, b"\x25\x00\xff\xff"),
+        ((65536, "instance_id"), True, b"\x26\x00\x00\x00\x01\x00"), ((65536, "instance_id"), False, b"\x26\x00\x00\x01\x00"), ((0xFFFFFFFF, "instance_id"), True, b"\x26\x00\xff\xff\xff\xff"),
+        ((2, "member_id"), True, b"\x28\x02"), ((300, "member_id"), True, b"\x29\x00\x2c\x01"), ((1, "connection_point"), True, b"\x2c\x01"), ((7, "attribute_id"), True, b"\x30\x07"), ((0x4C, "service_id"), True, b"\x38\x4c"),
+        ((b"\x01", "class_id"), True, b"\x20\x01"), ((b"\x2c\x01", "instance_id"), True, b"\x25\x00\x2c\x01"), ((b"\x2c\x01", "instance_id"), False, b"\x25\x2c\x01"),
+    ]
+    for (val, typ), padded, want in lcases:
+        kind, res = run_function(ctx, ls.module, fn, {pnames[0]: Obj(_ci=ls, _is_class=True), pnames[1]: Obj(logical_value=val, logical_type=typ), pnames[2]: padded}, deep=False)
+        res = bytes(res) if isinstance(res, bytearray) else res
+        _report(ctx, ckey(ls.key + "._encode", f"witness:{val!r}:{typ}:{'padded' if padded else 'packed'}"), fn, f"logical segment {typ} {val!r} ({'padded' if padded else 'packed'})", (kind, res), ("return", want), "LogicalSegment._encode")
+    for (val, typ), label in (((0x1_0000_0000, "instance_id"), "a value above 32 bits"), ((5, "no_such_type"), "an unknown logical type"), ((b"\x01\x02\x03", "instance_id"), "a 3-byte value")):
+        kind, res = run_function(ctx, ls.module, fn, {pnames[0]: Obj(_ci=ls, _is_class=True), pnames[1]: Obj(logical_value=val, logical_type=typ), pnames[2]: True}, deep=False)
+        key = ckey(ls.key + "._encode", f"refused:{label}")
+        if kind == "unknown":
+            ctx.undecided(key, fn, f"LogicalSegment._encode not foldable on {label}: {res}")
+        else:
+            ctx.check(kind == "raise", key, fn, f"{label} is refused", f"LogicalSegment._encode of {label} gives {kind} {res!r} instead of raising")
+
+    ps = ctx.model.cls(f"{DTm}:PortSegment")
+    fn = ps.methods["_encode"]
+    pnames = [a.arg for a in fn.args.args]
+
+    def ip_hook(call, env, it):
+        # address validators of the standard library are applied to the witness text as they are (pure functions of the text)
+        path = attr_path(call.func) or ""
+        if path in ("ipaddress.ip_address", "ip_address", "ipaddress.IPv4Address", "ipaddress.IPv6Address"):
+            v = it.ev(call.args[0], env)
+            try:
+                return str({"ipaddress.IPv4Address": _ip.IPv4Address, "ipaddress.IPv6Address": _ip.IPv6Address}.get(path, _ip.ip_address)(v))
+            except ValueError:
+                raise _Raise("ValueError")
+        if path in ("socket.inet_aton", "inet_aton", "socket.inet_pton", "inet_pton"):
+            import socket as _so
+
+            a = [it.ev(x, env) for x in call.args]
+            try:
+                return _so.inet_aton(a[0]) if path.endswith("inet_aton") else _so.inet_pton({"AF_INET": _so.AF_INET, "AF_INET6": _so.AF_INET6}.get(ast.unparse(call.args[0]).split(".")[-1], _so.AF_INET), a[1])
+            except (OSError, TypeError, ValueError):
+                raise _Raise("OSError")
+        return UNKNOWN
+
+    pcases = [
+        (("bp", 0), b"\x01\x00"), (("backplane", 1), b"\x01\x01"), ((2, 5), b"\x02\x05"), (("bp", "3"), b"\x01\x03"), (("enet", "10.11.12.13"), b"\x12\x0b10.11.12.13\x00"), (("enet", "1.2.3.4"), b"\x12\x071.2.3.4\x00"),
+        (("enet", "1.2.3.44"), b"\x12\x081.2.3.44"), (("dhrio-b", 255), b"\x03\xff"), (("dhrio-a", 1), b"\x02\x01"), (("dh485-b", 1), b"\x03\x01"), (("dnet", 2), b"\x02\x02"), ((14, 1), b"\x0e\x01"), ((1, b"\x01\x02"), b"\x11\x02\x01\x02"), (("cnet", "9"), b"\x02\x09"),
+    ]
+    for (port, link), want in pcases:
+        kind, res = run_function(ctx, ps.module, fn, {pnames[0]: Obj(_ci=ps, _is_class=True), pnames[1]: Obj(port=port, link_address=link), pnames[2]: False}, call_hook=ip_hook, deep=False)
+        res = bytes(res) if isinstance(res, bytearray) else res
+        _report(ctx, ckey(ps.key + "._encode", f"witness:{port!r}:{link!r}"), fn, f"port segment {port!r} / {link!r}", (kind, res), ("return", want), "PortSegment._encode")
+    for (port, link), label in (((15, 1), "port 15"), ((0, 1), "port 0"), (("bp", 300), "link 300"), (("bp", "300"), "link '300'"), (("enet", "not-an-address"), "a text link that is no IP address"), (("nonsense", 1), "an unknown port name"), (("enet-b", 1), "a channel suffix on a single-channel port"), (("bp-a", 1), "a channel suffix on the backplane"), (("dhrio", 1), "a two-channel module without its channel"),
+                                (("enet", "1.2.3"), "an incomplete IP address")):
+        kind, res = run_function(ctx, ps.module, fn, {pnames[0]: Obj(_ci=ps, _is_class=True), pnames[1]: Obj(port=port, link_address=link), pnames[2]: False}, call_hook=ip_hook, deep=False)
+        key = ckey(ps.key + "._encode", f"refused:{label}")
+        if kind == "unknown":
+            ctx.undecided(key, fn, f"PortSegment._encode not foldable on {label}: {res}")
+        else:
+            ctx.check(kind == "raise", key, fn, f"{label} is refused", f"PortSegment._encode of {label} gives {kind} {res!r} instead of raising")
+
+    ep = ctx.model.cls(f"{DTm}:EPATH")
+    fn = ep.methods["encode"]
+    pnames = [a.arg for a in fn.args.args]
+    for cname, padded in (("PADDED_EPATH", True), ("PACKED_EPATH", False)):
+        ci = ctx.model.cls(f"{DTm}:{cname}")
+        asked = []
+
+        def seg_hook(call, env, it, asked=asked):
+            f = call.func
+            if isinstance(f, ast.Attribute) and f.attr == "encode" and isinstance(f.value, ast.Name) and isinstance(env.get(f.value.id), Obj) and env[f.value.id].__dict__.get("kind") == "seg":
+                kw = {k.arg: it.ev(k.value, env) for k in call.keywords}
+                a = [it.ev(x, env) for x in call.args]
+                asked.append((a[0].__dict__.get("tag"), kw.get("padded", a[1] if len(a) > 1 else "<default>")))
+                return env[f.value.id].data
+            if (call_name(call) or "") == "isinstance" and len(call.args) == 2 and ast.unparse(call.args[1]) in ("bytes", "(bytes, bytearray)"):
+                v = it.ev(call.args[0], env)
+                return isinstance(v, (bytes, bytearray))
+            return UNKNOWN
+
+        s1, s2 = Obj(kind="seg", tag="s1", data=b"\x20\x02"), Obj(kind="seg", tag="s2", data=b"\x25\x00\x2c\x01")
+        for label, kw, want in (("no length", {}, b"\x20\x02\xaa\xbb\x25\x00\x2c\x01"), ("word count", {"length": True}, b"\x04\x20\x02\xaa\xbb\x25\x00\x2c\x01"),
+                                ("word count and reserved byte", {"length": True, "pad_length": True}, b"\x04\x00\x20\x02\xaa\xbb\x25\x00\x2c\x01"), ("reserved byte asked without a length", {"pad_length": True}, b"\x20\x02\xaa\xbb\x25\x00\x2c\x01")):
+            del asked[:]
+            env = {pnames[0]: Obj(_ci=ci, _is_class=True), pnames[1]: [s1, b"\xaa\xbb", s2], pnames[2]: kw.get("length", False), pnames[3]: kw.get("pad_length", False)}
+            kind, res = run_function(ctx, ep.module, fn, env, call_hook=seg_hook, deep=False)
+            res = bytes(res) if isinstance(res, bytearray) else res
+            key = ckey(ci.key + ".encode", f"witness:{label}")
+            if kind == "unknown":
+                ctx.undecided(key, fn, f"{cname}.encode not foldable ({label}): {res}")
+                continue
+            ctx.check(kind == "return" and res == want and asked == [("s1", padded), ("s2", padded)], key, fn, f"{cname}, {label}: {want.hex()}, segments asked for the {'padded' if padded else 'packed'} form in order",
+                      f"{cname}.encode ({label}) gives {kind} {res.hex() if isinstance(res, bytes) else res!r} asking {asked!r}; expected {want.hex()} asking [('s1', {padded}), ('s2', {padded})]")
+        kind, res = run_function(ctx, ep.module, fn, {pnames[0]: Obj(_ci=ci, _is_class=True), pnames[1]: [], pnames[2]: True, pnames[3]: True}, call_hook=seg_hook, deep=False)
+        if kind != "unknown":
+            ctx.check(kind == "return" and res == b"\x00\x00", ckey(ci.key + ".encode", "witness:empty path with length"), fn, "empty path: word count 0 and the reserved byte", f"{cname}.encode([]) with length gives {kind} {res!r}")
+
+
+def _route_rule(ctx):
+    """parse_cip_route folded on witnesses (PortSegment is a marker): a text route is split at `/` and `\\` into consecutive
+    (port, link) pairs from the first element, an all-digit port becomes a number, names stay names; an odd number of elements
+    is RequestError, except the auto-slot shortcuts (empty route -> backplane slot 0, one element -> backplane slot <element>)
+    when asked; a list is taken as already split; anything unparsable is RequestError."""
+    CDm = "pycomm3.cip_driver"
+    fi = ctx.model.func(f"{CDm}:parse_cip_route")
+    fn = fi.node
+    p = [a.arg for a in fn.args.args]
+    seg_hook = lambda call, env, it: ("P",) + tuple(it.ev(a, env) for a in call.args) if (call_name(call) or "") == "PortSegment" and isinstance(call.func, ast.Name) else UNKNOWN  # noqa: E731
+    cases = [
+        ("bp/0", False, ("return", [("P", "bp", "0")])), ("backplane/1/enet/10.0.0.2", False, ("return", [("P", "backplane", "1"), ("P", "enet", "10.0.0.2")])), ("1/0", False, ("return", [("P", 1, "0")])),
+        ("2/10.0.0.5/1/3", False, ("return", [("P", 2, "10.0.0.5"), ("P", 1, "3")])), ("bp\\2", False, ("return", [("P", "bp", "2")])), ("bp\\1/enet\\1.2.3.4", False, ("return", [("P", "bp", "1"), ("P", "enet", "1.2.3.4")])),
+        (["bp", "4"], False, ("return", [("P", "bp", "4")])), ([], False, ("return", [])), ([], True, ("return", [("P", "bp", 0)])), (["3"], True, ("return", [("P", "bp", "3")])), ("3", True, ("return", [("P", "bp", "3")])),
+        ("bp/1/enet", False, ("raise", "RequestError")), ("bp/1/enet", True, ("raise", "RequestError")), ("3", False, ("raise", "RequestError")), ("bp/1", True, ("return", [("P", "bp", "1")])), (5, False, ("raise", "RequestError")),
+        ("1a/0", False, ("return", [("P", "1a", "0")])),
+    ]
+    for path, auto, want in cases:
+        kind, res = run_function(ctx, fi.module, fn, {p[0]: (list(path) if isinstance(path, list) else path), p[1]: auto}, call_hook=seg_hook, deep=False)
+        if kind == "return" and isinstance(res, list):  # (a segment taken from a module-level constant comes back as a construction record)
+            res = [("P",) + tuple(x.args) if type(x).__name__ == "Instance" and x.ci.name == "PortSegment" else x for x in res]
+        _report(ctx, ckey(fi, f"witness:{path!r}:auto_slot={auto}"), fn, f"route {path!r} (auto_slot={auto})", (kind, res), want, "parse_cip_route")
+
+
+rule("C09", "D9.11", "T-WITNESS", floor=30)(_segment_rule)
+rule("C15", "D15.10", "T-WITNESS", floor=30)(_segment_rule)
+rule("C15", "D15.11", "T-WITNESS", floor=12)(_route_rule)
